@@ -229,7 +229,7 @@ func (x *Exec) assignStmt(st *State, s *ast.AssignStmt) {
 		var r Term
 		if a.Sort.Kind == KStr && op == token.ADD {
 			x.u.ensureStrCat()
-			r = app(sortStr, "str.cat", a, b)
+			r = app(sortStr, "gs.cat", a, b)
 		} else if a.Sort.Kind == KInt {
 			r = x.arith(st, op, a, b, x.typeOf(s.Lhs[0]), x.typeOf(s.Lhs[0]), s)
 		} else {
@@ -252,6 +252,16 @@ func (x *Exec) assignStmt(st *State, s *ast.AssignStmt) {
 		}
 	}
 	for i, l := range s.Lhs {
+		if id, ok := l.(*ast.Ident); ok && len(s.Rhs) == len(s.Lhs) {
+			if lit, ok := ast.Unparen(s.Rhs[i]).(*ast.FuncLit); ok {
+				if obj := x.objOf(id); obj != nil {
+					if x.closures == nil {
+						x.closures = map[types.Object]*ast.FuncLit{}
+					}
+					x.closures[obj] = lit
+				}
+			}
+		}
 		if s.Tok == token.DEFINE {
 			if id, ok := l.(*ast.Ident); ok {
 				x.define(st, id, vals[i])
@@ -350,9 +360,10 @@ func (x *Exec) returnStmt(st *State, s *ast.ReturnStmt) *Flow {
 	default:
 		for i, r := range s.Results {
 			v := x.expr(st, r)
-			if i < len(x.results) {
-				v = x.coerce(v, x.c().sortOf(x.results[i].Type()))
-				v.Go = x.results[i].Type()
+			if x.sig != nil && i < x.sig.Results().Len() {
+				rt := x.sig.Results().At(i).Type()
+				v = x.coerce(v, x.c().sortOf(rt))
+				v.Go = rt
 			}
 			vals = append(vals, v)
 		}
@@ -637,6 +648,7 @@ func (x *Exec) loop(st *State, node ast.Stmt, ord int, label string, mod map[typ
 		return fmt.Sprintf("loop%d:%d", ord, i)
 	}
 	// 1. invariants hold on entry
+	x.runGhost(st, spec.Init, fmt.Sprintf("loop%d-init", ord), node)
 	for i, cl := range spec.Invariants {
 		x.assert(st, evalInv(st, cl), "inv-init", lbl(i, cl), node, cl.Raw)
 	}
@@ -891,4 +903,83 @@ func (x *Exec) autoDerefQuiet(t Term) Term {
 type rangeBind struct {
 	ast.EmptyStmt
 	fn func(*State)
+}
+
+func (x *Exec) objOf(id *ast.Ident) types.Object {
+	if o := x.info.Defs[id]; o != nil {
+		return o
+	}
+	return x.info.Uses[id]
+}
+
+// inlineClosure executes the body of a local function literal at its call site
+// (local helper closures are not API functions; they are verified in place).
+func (x *Exec) inlineClosure(st *State, call *ast.CallExpr, lit *ast.FuncLit) []Term {
+	if x.inlineDepth > 3 {
+		x.unsupported(call, "closure inlining too deep (recursive closure?)")
+	}
+	sig, _ := x.typeOf(lit).(*types.Signature)
+	var args []Term
+	for _, a := range call.Args {
+		args = append(args, x.expr(st, a))
+	}
+	i := 0
+	var bound []types.Object
+	for _, f := range lit.Type.Params.List {
+		for _, nm := range f.Names {
+			if obj := x.info.Defs[nm]; obj != nil && i < len(args) {
+				v := x.coerce(args[i], x.c().sortOf(obj.Type()))
+				v.Go = obj.Type()
+				st.vars[obj] = v
+				bound = append(bound, obj)
+			}
+			i++
+		}
+	}
+	savedSig, savedRes, savedDefers := x.sig, x.results, x.defers
+	x.sig = sig
+	x.results = nil
+	if lit.Type.Results != nil {
+		for _, f := range lit.Type.Results.List {
+			for _, nm := range f.Names {
+				if v, ok := x.info.Defs[nm].(*types.Var); ok {
+					x.results = append(x.results, v)
+					st.vars[v] = x.c().zero(x.c().sortOf(v.Type()), v.Type())
+				}
+			}
+		}
+	}
+	x.defers = nil
+	x.inlineDepth++
+	work := st.clone()
+	fl := x.block(work, lit.Body.List)
+	x.inlineDepth--
+	if len(x.defers) > 0 {
+		x.unsupported(call, "defer inside inlined closure")
+	}
+	ends := fl.rets
+	if fl.normal != nil {
+		var vals []Term
+		for _, r := range x.results {
+			vals = append(vals, fl.normal.vars[r])
+		}
+		fl.normal.ret = vals
+		ends = append(ends, fl.normal)
+	}
+	x.sig, x.results, x.defers = savedSig, savedRes, savedDefers
+	m := x.merge(ends)
+	if m == nil {
+		st.pc = tFalse
+		return nil
+	}
+	st.vars, st.ghost, st.pc = m.vars, m.ghost, m.pc
+	for _, o := range bound {
+		delete(st.vars, o)
+	}
+	rets := m.ret
+	st.ret = nil
+	if sig != nil && len(rets) != sig.Results().Len() {
+		x.unsupported(call, "inlined closure result count mismatch")
+	}
+	return rets
 }
